@@ -327,5 +327,12 @@ func main() {
 	R.Sample("mul", map[string]any{"s": mc.HexBig(sc[0].V), "scalar_label": sc[0].Label, "point": pts[1].Label, "paths": paths})
 	R.Sample("mul", map[string]any{"s": mc.HexBig(sc[nGLV/2].V), "scalar_label": sc[nGLV/2].Label, "point": pts[len(pts)-1].Label})
 	R.Expect("split signs (k1 negative=false, k2 negative=false)", "split signs (k1 negative=true, k2 negative=false)", "split signs (k1 negative=false, k2 negative=true)", "split signs (k1 negative=true, k2 negative=true)")
+	// cold start: each path as the first library operation of a fresh process
+	for path := range paths {
+		g5 := ref.G().Mul(big.NewInt(5))
+		for _, s := range []*big.Int{big.NewInt(0x1d3), new(big.Int).Sub(ref.N, big.NewInt(7))} {
+			R.Cold(fmt.Sprintf("mul/%s", paths[path]), "mul", mc.D{"s": mc.HexBig(s), "p": lib.PtHex(g5), "z": "3", "path": path, "aliased": false, "hist": 0})
+		}
+	}
 	R.Finish()
 }
